@@ -40,7 +40,7 @@ IDS = ("a", "b", "c", "r0/a", "")   # "r0/a" unrouted vs "a" on route "r0": dist
 ROUTES = (None, "r0", "r1")
 STATUSES = (None, "inprogress", "success", "fail", "skip", "xfail", "uxsuccess", "exists")
 FINAL = ("success", "fail", "skip", "xfail", "uxsuccess", "exists")
-MIMES = (None, "text/plain; charset=utf8", "application/octet-stream")
+MIMES = (None, "text/plain; charset=utf8", "application/octet-stream", "text/plain; charset=rot13")
 STATUS_METHOD = {"success": "addSuccess", "skip": "addSkip", "fail": "addFailure", "xfail": "addExpectedFailure",
                  "uxsuccess": "addUnexpectedSuccess", "unknown": "addFailure", "inprogress": "addFailure"}
 
